@@ -202,59 +202,68 @@ class Check:
         if not os.path.exists(mk) or os.path.getmtime(mk) < os.path.getmtime(cp):
             sh("coq_makefile -f _CoqProject -o Makefile", 120, cwd=COQ)
 
-    def coq_build(self, folder, theorems, extra_targets=(), timeout=1500):
-        """Full .vo build of <folder>/Proofs.vo (and deps), then coqc <folder>/Props.v capturing Print Assumptions.
+    def coq_build(self, folder, theorems, extra_targets=(), timeout=1500, props_files=None):
+        """Full .vo build of the folder's files (and deps), then coqc of the Props file(s) capturing Print Assumptions.
         Each theorem in `theorems` is one proof obligation."""
         self._ensure_makefile()
         self.lint()
-        targets = [folder + "/Proofs.vo"] + list(extra_targets)
+        props_files = props_files or [folder + "/Props.v"]
+        targets = ([folder + "/Proofs.vo"] if os.path.exists(os.path.join(COQ, folder, "Proofs.v")) else []) + list(extra_targets)
+        # everything the Props files import must be built
+        for pf in props_files:
+            src = open(os.path.join(COQ, pf)).read()
+            for m in re.findall(r"From PyQMC Require Import ([^.]*(?:\.[A-Za-z0-9_]+)*[^.]*)\.", src):
+                for mod in m.split():
+                    t = mod.replace(".", "/") + ".vo"
+                    if t not in targets and os.path.exists(os.path.join(COQ, t[:-1])):
+                        targets.append(t)
         cmd = "flock %s/.lock timeout %d make -j16 %s" % (COQ, timeout, " ".join(targets))
         rc, out, dt = sh(cmd, timeout + 60, cwd=COQ)
-        self.checker_cmds.append("cd coq && make %s && coqc -Q . PyQMC %s/Props.v" % (" ".join(targets), folder))
+        self.checker_cmds.append("cd coq && make %s && coqc -Q . PyQMC %s" % (" ".join(targets), " ".join(props_files)))
         self.stats.setdefault("coq_build_s", 0)
         self.stats["coq_build_s"] += round(dt, 1)
         if rc != 0:
-            tail = "\n".join(out.strip().splitlines()[-25:])
+            tail = "\n".join(l for l in out.strip().splitlines() if "Warning" not in l and "coercion" not in l)[-2500:]
             for t in theorems:
                 self.obligations.append((t, False, []))
             self.broken.append({"theorem": "%s (build of %s failed)" % (", ".join(theorems[:3]) + ("…" if len(theorems) > 3 else ""), " ".join(targets)),
                                 "correspondence": None, "coqc_tail": tail})
             return False
-        props = os.path.join(COQ, folder, "Props.v")
-        src = open(props).read()
-        rc, out, dt = sh("timeout %d coqc -Q . PyQMC %s/Props.v" % (timeout, folder), timeout + 60, cwd=COQ)
-        self.stats["coq_build_s"] += round(dt, 1)
-        if rc != 0:
-            tail = "\n".join(out.strip().splitlines()[-25:])
-            m = re.search(r'line (\d+)', out)
-            failing = "?"
-            if m:
-                ln = int(m.group(1))
-                before = "\n".join(src.splitlines()[:ln])
-                names = re.findall(r"(?:Theorem|Example|Lemma|Corollary)\s+([A-Za-z0-9_']+)", before)
-                failing = names[-1] if names else "?"
-            for t in theorems:
-                self.obligations.append((t, False, []))
-            self.broken.append({"theorem": "%s.Props.%s" % (folder, failing), "correspondence": None, "coqc_tail": tail})
-            return False
-        # map Print Assumptions blocks to names
-        order = re.findall(r"Print Assumptions\s+([A-Za-z0-9_']+)\s*\.", src)
-        blocks = re.split(r"(?m)^(?=Closed under the global context|Axioms:)", out)
-        blocks = [b for b in blocks if b.startswith("Closed under") or b.startswith("Axioms:")]
-        ass = {}
-        for name, b in zip(order, blocks):
-            if b.startswith("Closed"):
-                ass[name] = []
-            else:
-                ass[name] = sorted(set(l.split(":")[0].strip() for l in b.split("\n")[1:] if l and not l[0].isspace() and not l.startswith("Closed") and not l.startswith("Axioms")))
-        declared = set(re.findall(r"(?:Theorem|Example|Corollary)\s+([A-Za-z0-9_']+)", src))
+        ass, declared = {}, set()
+        for pf in props_files:
+            props = os.path.join(COQ, pf)
+            src = open(props).read()
+            rc, out, dt = sh("timeout %d coqc -w none -Q . PyQMC %s" % (timeout, pf), timeout + 60, cwd=COQ)
+            self.stats["coq_build_s"] += round(dt, 1)
+            if rc != 0:
+                tail = "\n".join(out.strip().splitlines()[-25:])
+                m = re.search(r'line (\d+)', out)
+                failing = "?"
+                if m:
+                    ln = int(m.group(1))
+                    before = "\n".join(src.splitlines()[:ln])
+                    names = re.findall(r"(?:Theorem|Example|Lemma|Corollary)\s+([A-Za-z0-9_']+)", before)
+                    failing = names[-1] if names else "?"
+                for t in theorems:
+                    self.obligations.append((t, False, []))
+                self.broken.append({"theorem": "%s.%s" % (pf, failing), "correspondence": None, "coqc_tail": tail})
+                return False
+            order = re.findall(r"Print Assumptions\s+([A-Za-z0-9_']+)\s*\.", src)
+            blocks = re.split(r"(?m)^(?=Closed under the global context|Axioms:)", out)
+            blocks = [b for b in blocks if b.startswith("Closed under") or b.startswith("Axioms:")]
+            for name, b in zip(order, blocks):
+                if b.startswith("Closed"):
+                    ass[name] = []
+                else:
+                    ass[name] = sorted(set(l.split(":")[0].strip() for l in b.split("\n")[1:] if l and not l[0].isspace() and not l.startswith("Closed") and not l.startswith("Axioms")))
+            declared |= set(re.findall(r"(?:Theorem|Example|Corollary)\s+([A-Za-z0-9_']+)", src))
         ok_all = True
         for t in theorems:
             ok = t in declared and t in ass
             self.obligations.append((t, ok, ass.get(t, [])))
             if not ok:
                 ok_all = False
-                self.broken.append({"theorem": "%s.Props.%s (missing from Props.v or no Print Assumptions)" % (folder, t),
+                self.broken.append({"theorem": "%s: %s (missing from the Props file or no Print Assumptions)" % (folder, t),
                                     "correspondence": None, "coqc_tail": ""})
         allax = sorted(set(a for v in ass.values() for a in v))
         self.stats["axioms_used"] = allax
